@@ -32,10 +32,11 @@ RULE = ("one run = program (1-2 files, second file possibly a twin of the first:
         "1-5 evaluations each) x approved set x 2 schedules (uniform / round-robin / bursty / reversed merge of the per-site sequences, cut into "
         "tests at random); distinct = interleaving signatures (hash of the site-id sequence with values erased); non-trivial = at least two sites "
         "whose evaluations alternate")
+RULE += " Dimensions added while testing against seeded changes: looped comparisons inside finally blocks (one textual call reached by two instructions: normal and exceptional path); access-only keys; mutation test; a first test with a fault at one site."
 ASSUMPTIONS = ["all events are non-aborting (rec style) so both schedules reach the same observations",
                "id() reuse of freed code objects is out of reach (see level note)"]
 REAL_VS_STUB = {
-    "real": ["inline_snapshot library from /repo/src (global call-site table keyed by code object and instruction offset)", "Example.run_inline (bulk)",
+    "real": ["inline_snapshot library from /repo/src (global call-site table, keyed by the call's source node since fix 5edbd3e)", "Example.run_inline (bulk)",
              "pytest + plugin (sample)", "executing / asttokens"],
     "stub": ["the scheduler (writes the interleaving into the test bodies)", "formatter states"],
 }
